@@ -80,7 +80,7 @@ int32_t jls_copy(const char * src, const char * dst,
             }
         }
         // printf("%" PRIi64 " %d %" PRIu32 "\n", offset, hdr.tag, hdr.payload_length);
-        rc = jls_buf_realloc(buf, hdr.payload_length);
+        rc = jls_buf_realloc(buf, ((size_t) hdr.payload_length) + 16);  // payload + pad + CRC32 on disk
         if (rc) {
             MSG_ERROR("jls_buf_realloc", rc);
             return JLS_ERROR_NOT_ENOUGH_MEMORY;
